@@ -13,6 +13,25 @@
     parseN         = `Serializable.from_node`: `handle_attribute` (attrib.get), `handle_single` (find first child),
                      `handle_list` (findall; nothing found = field absent), `parse_serializable_array` (children of the wrapper).
     toDictN/ofDictN= `Serializable.to_dict` (l.1223-1319) / `from_dict` = `cls(**dict)`; `copy` = `from_dict (to_dict x)`.
+
+  Constructs of the hand-written glue that are part of the format language (C05X):
+    ClassTab.poly  = `Poly1DType` / `Poly2DType` (sicd_elements/blocks.py `to_node` / `from_node` / `to_dict`) and the SIDD filter
+                     coefficient classes `_CustomType` (sidd2_elements/blocks.py): dimension attributes (`order1` = n - 1, or
+                     `numPhasings` = n), one `<Coef exponent1=".." [exponent2=".."]>` child per coefficient, ALL coefficients
+                     written, the reader starts from zeros and places every child AT ITS EXPONENTS (document order irrelevant,
+                     absent coefficients are zero); optional inner wrapper node (`FilterCoefficients`).
+    Kind.floatArr  = `FloatArrayDescriptor` + `serialize_array` (base.py l.1046-1079): `<tag size="n"><child index="i+base">`;
+                     the reader requires `size` = number of children and takes the values IN DOCUMENT ORDER (`index` ignored).
+    Kind.array     = `SerializableArrayDescriptor` / `SerializableCPArrayDescriptor`: `SerializableArray.to_node`,
+                     `parse_serializable_array` (a `size` attribute, when present, must equal the number of children),
+                     `set_array` (minimum / maximum length, else ValueError) and `_check_indices` (the container overwrites the
+                     `index` field of entry k with k + 1, or with the corner label '1:FRFC' ...).
+    Kind.params    = `ParametersDescriptor` / `ParametersCollection` / `parse_parameters_collection`: entries in insertion
+                     order; the reader builds an OrderedDict (a repeated name keeps its first position and takes the last
+                     value); optional wrapper element (`ErrorStatisticsType.AdditionalParms`).
+    Kind.count / const / which = read-only properties listed in `_fields` (`NumACFs`, `Size`, `resourceElement`, `ImageType`):
+                     written from the other fields, ignored by the constructor (`setattr` raises AttributeError, base.py
+                     l.695-702) — they carry no information, their slot in a value is `absent`.
   Namespaces: the prefix a node inherits from its parent is resolved by the translator (translate/tables_xml.py), which emits
   one table per (python class, namespace context) with fully qualified tags; `tag` is what `to_node` writes, `ptag` what
   `from_node` looks up.  Qualified names, field names and primitive kinds are interned as numbers.
@@ -38,6 +57,61 @@ def text : XmlNode S → Option S | mk _ _ x _ => x
 def children : XmlNode S → List (XmlNode S) | mk _ _ _ c => c
 end XmlNode
 
+/-- parameters of an object array (`SerializableArray` and subclasses) -/
+structure ArrSpec where
+  /-- child tag written / looked up -/
+  childTag : QName
+  pChildTag : QName
+  /-- size attribute written (`_set_size`, `_size_var_name`) -/
+  sizeAttr : Option QName
+  /-- size attribute the reader consults (`parse_serializable_array`: the literal `size`) -/
+  pSizeAttr : QName
+  minLen : Nat
+  maxLen : Nat
+  /-- position, in the child's table, of the field `_check_indices` overwrites (`none`: `_set_index` off, or no such field) -/
+  idxPos : Option Nat
+  /-- `[]`: entry k gets the integer k + 1; otherwise the constant ids of the labels ('1:FRFC', ...) -/
+  idxLabels : List Nat
+  /-- only the entries at positions below this are renumbered (`SerializableCPArray._check_indices` touches the first four) -/
+  idxLimit : Nat
+deriving DecidableEq
+
+/-- parameters of a float array (`FloatArrayDescriptor`) -/
+structure FArrSpec where
+  prim : PrimId
+  childTag : QName
+  pChildTag : QName
+  sizeAttr : QName
+  pSizeAttr : QName
+  idxAttr : QName
+  /-- `index` of the first child: 0 for `Amplitude`, 1 otherwise -/
+  base : Nat
+deriving DecidableEq
+
+/-- parameters of a coefficient array class (`Poly1DType`, `Poly2DType`, `_CustomType`) -/
+structure PolySpec where
+  two : Bool
+  coefTag : QName
+  pCoefTag : QName
+  dim1 : QName
+  pDim1 : QName
+  dim2 : QName
+  pDim2 : QName
+  exp1 : QName
+  pExp1 : QName
+  exp2 : QName
+  pExp2 : QName
+  /-- dimension attribute = number of entries - dimOff (1: `order1`; 0: `numPhasings`) -/
+  dimOff : Nat
+  /-- inner node carrying the dimension attributes and the coefficients: (tag written, tag looked up) -/
+  wrapper : Option (QName × QName)
+  prim : PrimId
+  /-- dict key (`Coefs`) -/
+  dname : Nat
+  /-- constant id of the fill value (the float 0.0 of `numpy.zeros`) -/
+  fill : Nat
+deriving DecidableEq
+
 inductive Kind where
   /-- `<tag>text</tag>` (String/Integer/Float/Boolean/DateTime/Enum descriptors) -/
   | prim (p : PrimId)
@@ -47,12 +121,23 @@ inductive Kind where
   | text (p : PrimId)
   /-- nested structure `<tag>…</tag>` (SerializableDescriptor, UnitVectorDescriptor, complex numbers) -/
   | child (c : ClassId)
-  /-- repeated `<tag>…</tag>` directly under the class node (SerializableListDescriptor, ParametersDescriptor) -/
+  /-- repeated `<tag>…</tag>` directly under the class node (SerializableListDescriptor) -/
   | list (c : ClassId)
-  /-- `<tag size="n"><childTag>…</childTag>*</tag>` (SerializableArrayDescriptor); `pChildTag` is the child tag the reader uses -/
-  | array (c : ClassId) (childTag pChildTag : QName) (sizeAttr : Option QName)
+  /-- `<tag size="n"><childTag>…</childTag>*</tag>` (SerializableArrayDescriptor, SerializableCPArrayDescriptor) -/
+  | array (c : ClassId) (a : ArrSpec)
   /-- repeated `<tag>text</tag>` (String/Integer/FloatListDescriptor) -/
   | primList (p : PrimId)
+  /-- `<tag size="n"><childTag index="k">text</childTag>*</tag>` (FloatArrayDescriptor) -/
+  | floatArr (f : FArrSpec)
+  /-- name -> value collection: entries of the two-row class `c`; `wrap = none`: repeated `<tag name="..">` directly under the
+      class node; `wrap = some (ct, pct)`: `<tag><ct name="..">..</ct>*</tag>` -/
+  | params (c : ClassId) (wrap : Option (QName × QName))
+  /-- derived: number of entries of the collection in row `src` (0 when absent) -/
+  | count (p : PrimId) (src : Nat)
+  /-- derived: a constant (element, or attribute when `asAttr`) -/
+  | const (p : PrimId) (k : Nat) (asAttr : Bool)
+  /-- derived: the constant paired with the first populated row among `alts`; nothing when none is -/
+  | which (p : PrimId) (alts : List (Nat × Nat))
 deriving DecidableEq
 
 structure Row where
@@ -69,6 +154,8 @@ inductive ClassTab where
   | rows (rs : List Row)
   /-- a class with hand-written XML logic: its node body is a black box for the generic machinery -/
   | custom
+  /-- a coefficient array class -/
+  | poly (s : PolySpec)
 
 abbrev Tabs := List ClassTab
 
@@ -80,16 +167,28 @@ inductive Val (P S : Type) where
   | blob (attrs : List (QName × S)) (text : Option S) (children : List (XmlNode S))
 
 /-- primitive text codecs, abstract: `toText k` renders, `ofText k` parses, `ok k` = values the descriptor of kind `k` holds;
-    `sizeText n` renders the `size` attribute of an array -/
+    `sizeText n` = `str(n)` (size, index, exponent, order attributes), `ofSize` = `int(text)`;
+    `natVal n` / `constVal k` = the integer n / the interned constant k as a field value; `peq` = equality of
+    field values -/
 structure Codec (P S : Type) where
   toText : PrimId → P → S
   ofText : PrimId → S → Option P
   ok : PrimId → P → Bool
   sizeText : Nat → S
+  ofSize : S → Option Nat
+  natVal : Nat → P
+  constVal : Nat → P
+  peq : P → P → Bool
 
 /-- the round-trip law assumed of the primitive codecs (a hypothesis of the theorems, tested on the implementation) -/
 def Codec.RoundTrip {P S : Type} (C : Codec P S) : Prop :=
   ∀ k p, C.ok k p = true → C.ofText k (C.toText k p) = some p
+
+/-- everything the theorems assume of the codec: primitives round-trip, `int(str(n)) = n`, `peq` is equality -/
+structure Codec.Laws {P S : Type} (C : Codec P S) : Prop where
+  rt : C.RoundTrip
+  size : ∀ n, C.ofSize (C.sizeText n) = some n
+  peq : ∀ a b, C.peq a b = true ↔ a = b
 
 /-- `mapM` for `Option`, spelled out -/
 def mapOpt {α β : Type} (f : α → Option β) : List α → Option (List β)
@@ -101,10 +200,13 @@ def mapOpt {α β : Type} (f : α → Option β) : List α → Option (List β)
       | some bs => some (b :: bs)
 
 def Kind.isElem : Kind → Bool
-  | .prim _ | .child _ | .list _ | .array .. | .primList _ => true
+  | .prim _ | .child _ | .list _ | .array .. | .primList _ | .floatArr _ | .params .. | .count .. | .which .. => true
+  | .const _ _ a => !a
   | .attr _ | .text _ => false
-def Kind.isAttr : Kind → Bool | .attr _ => true | _ => false
+def Kind.isAttr : Kind → Bool | .attr _ => true | .const _ _ a => a | _ => false
 def Kind.isText : Kind → Bool | .text _ => true | _ => false
+/-- derived rows: written from the other fields, never read -/
+def Kind.isDerived : Kind → Bool | .count .. | .const .. | .which .. => true | _ => false
 
 /-! ### well-formed tables (decidable) -/
 
@@ -118,23 +220,149 @@ def Row.compat (a b : Row) : Bool :=
   !(a.kind.isAttr && b.kind.isAttr && a.tag == b.tag) &&
   !(a.kind.isText && b.kind.isText)
 
+def ArrSpec.wf (a : ArrSpec) : Bool :=
+  a.childTag == a.pChildTag && (match a.sizeAttr with | none => true | some q => q == a.pSizeAttr)
+
+def FArrSpec.wf (f : FArrSpec) : Bool :=
+  f.childTag == f.pChildTag && f.sizeAttr == f.pSizeAttr
+
 def Row.wf (n : Nat) (r : Row) : Bool :=
   r.tag == r.ptag &&
   (match r.kind with
    | .child c | .list c => decide (c < n)
-   | .array c ct pct _ => decide (c < n) && ct == pct
+   | .array c a => decide (c < n) && a.wf
+   | .floatArr f => f.wf
+   | .params c none => decide (c < n)
+   | .params c (some w) => decide (c < n) && w.1 == w.2
    | _ => true)
+
+/-- writer and reader agree on every name; the two exponent attributes of a 2-D array differ; the dimension attributes differ -/
+def PolySpec.wf (s : PolySpec) : Bool :=
+  s.coefTag == s.pCoefTag && s.dim1 == s.pDim1 && s.exp1 == s.pExp1 &&
+  (!s.two || (s.dim2 == s.pDim2 && s.exp2 == s.pExp2 && s.exp1 != s.exp2 && s.dim1 != s.dim2)) &&
+  (match s.wrapper with | none => true | some w => w.1 == w.2)
 
 def ClassTab.wf (n : Nat) : ClassTab → Bool
   | .custom => true
   | .rows rs => rs.all (Row.wf n) && pairwiseB Row.compat rs
+  | .poly s => s.wf
 
 def wfTabs (T : Tabs) : Bool := T.all (ClassTab.wf T.length)
 
 /-- distinct effective element tags and attribute names per class, at most one text row, writer and reader agree on every
-    qualified tag, child classes exist (attribute rows are primitive by construction of `Kind`) -/
+    qualified tag / attribute name, child classes exist (attribute rows are primitive by construction of `Kind`) -/
 def WF (T : Tabs) : Prop := wfTabs T = true
 instance (T : Tabs) : Decidable (WF T) := inferInstanceAs (Decidable (wfTabs T = true))
+
+/-! ### helpers of the new constructs -/
+
+section helpers
+variable {P S : Type} (C : Codec P S)
+
+/-- number of entries of a collection value (`len(x)`, 0 for None) -/
+def lenOf : Val P S → Nat
+  | .node items => items.length
+  | _ => 0
+
+def isPresent : Val P S → Bool
+  | .absent => false
+  | _ => true
+
+/-- the constant of the first populated alternative -/
+def whichOf (kids : List (Val P S)) (alts : List (Nat × Nat)) : Option Nat :=
+  (alts.find? (fun a => isPresent (kids.getD a.1 .absent))).map (·.2)
+
+/-- `int(node.attrib[q])` -/
+def attrNat (x : XmlNode S) (q : QName) : Option Nat :=
+  match x.attrs.find? (fun a => a.1 == q) with
+  | none => none
+  | some a => C.ofSize a.2
+
+/-- the prims of a list of values (`none` unless all are prims) -/
+def primsOf : List (Val P S) → Option (List P)
+  | [] => some []
+  | .prim x :: vs => (primsOf vs).map (x :: ·)
+  | _ :: _ => none
+
+/-- the rows of a 2-D value -/
+def rowsOf : List (Val P S) → Option (List (List P))
+  | [] => some []
+  | .node r :: vs => match primsOf r, rowsOf vs with
+    | some r', some rs => some (r' :: rs)
+    | _, _ => none
+  | _ :: _ => none
+
+/-- `coefs[i] = v` for every entry in turn (IndexError = `none`) -/
+def place {α : Type} (init : List α) : List (Nat × α) → Option (List α)
+  | [] => some init
+  | e :: es => if e.1 < init.length then place (init.set e.1 e.2) es else none
+
+/-- `n` rows of width `w` cut from a flat list -/
+def chunk {α : Type} : Nat → Nat → List α → List (List α)
+  | 0, _, _ => []
+  | n + 1, w, l => l.take w :: chunk n w (l.drop w)
+
+/-- the field value `_check_indices` gives entry k -/
+def idxVal (labels : List Nat) (k : Nat) : P :=
+  match labels[k]? with
+  | some l => C.constVal l
+  | none => C.natVal (k + 1)
+
+def setKid (pos : Nat) (x : Val P S) : Val P S → Val P S
+  | .node kids => .node (kids.set pos x)
+  | v => v
+
+def reindexFrom (pos : Nat) (labels : List Nat) (lim : Nat) : Nat → List (Val P S) → List (Val P S)
+  | _, [] => []
+  | k, v :: vs => (if k < lim then setKid pos (.prim (idxVal C labels k)) v else v) :: reindexFrom pos labels lim (k + 1) vs
+
+/-- `_check_indices`: the canonical form of the entries of an object array -/
+def reindex (a : ArrSpec) (items : List (Val P S)) : List (Val P S) :=
+  match a.idxPos with
+  | none => items
+  | some pos => reindexFrom C pos a.idxLabels a.idxLimit 0 items
+
+/-- entry k already carries the index the container would give it -/
+def idxOk (pos : Nat) (labels : List Nat) (k : Nat) : Val P S → Bool
+  | .node kids => match kids[pos]? with
+    | some (.prim x) => C.peq x (idxVal C labels k)
+    | _ => false
+  | _ => false
+
+def idxOkFrom (pos : Nat) (labels : List Nat) (lim : Nat) : Nat → List (Val P S) → Bool
+  | _, [] => true
+  | k, v :: vs => (decide (lim ≤ k) || idxOk C pos labels k v) && idxOkFrom pos labels lim (k + 1) vs
+
+def isCanonArr (a : ArrSpec) (items : List (Val P S)) : Bool :=
+  match a.idxPos with
+  | none => true
+  | some pos => idxOkFrom C pos a.idxLabels a.idxLimit 0 items
+
+/-- `set_array`: length within the declared bounds, then `_check_indices` -/
+def finishArr (a : ArrSpec) (items : List (Val P S)) : Option (Val P S) :=
+  if a.minLen ≤ items.length && items.length ≤ a.maxLen then some (.node (reindex C a items)) else none
+
+/-- the name of a parameter entry -/
+def paramKey : Val P S → Option P
+  | .node (.prim k :: _) => some k
+  | _ => none
+
+def sameKey (a b : Val P S) : Bool :=
+  match paramKey a, paramKey b with
+  | some x, some y => C.peq x y
+  | _, _ => false
+
+/-- `out[name] = value` on an OrderedDict: a known name keeps its position and takes the new value -/
+def insertParam (acc : List (Val P S)) (x : Val P S) : List (Val P S) :=
+  if acc.any (fun a => sameKey C a x) then acc.map (fun a => if sameKey C a x then x else a) else acc ++ [x]
+
+/-- `parse_parameters_collection`: the canonical form of a parameter list -/
+def dedupe (items : List (Val P S)) : List (Val P S) := items.foldl (insertParam C) []
+
+/-- no two entries share a name -/
+def distinctKeys (items : List (Val P S)) : Bool := pairwiseB (fun a b => !(sameKey C a b)) items
+
+end helpers
 
 /-! ### XML codec -/
 
@@ -148,21 +376,39 @@ def primNode? (t : QName) (p : PrimId) : Val P S → Option (XmlNode S)
   | .prim x => some (textNode t (C.toText p x))
   | _ => none
 
-/-- element children contributed by one row (`ser` = serialisation of a nested structure) -/
-def emitRow (ser : ClassId → QName → Val P S → XmlNode S) (r : Row) (v : Val P S) : List (XmlNode S) :=
+/-- children of a float array: `<childTag index="k + base">text</childTag>` -/
+def farrNodes (f : FArrSpec) : Nat → List (Val P S) → List (XmlNode S)
+  | _, [] => []
+  | k, .prim x :: vs => .mk f.childTag [(f.idxAttr, C.sizeText (k + f.base))] (some (C.toText f.prim x)) [] :: farrNodes f (k + 1) vs
+  | k, _ :: vs => farrNodes f (k + 1) vs
+
+/-- element children contributed by one row (`ser` = serialisation of a nested structure, `kids` = all fields of the record) -/
+def emitRow (ser : ClassId → QName → Val P S → XmlNode S) (kids : List (Val P S)) (r : Row) (v : Val P S) : List (XmlNode S) :=
   match r.kind, v with
+  | .count p src, _ => [textNode r.tag (C.toText p (C.natVal (lenOf (kids.getD src .absent))))]
+  | .const p k false, _ => [textNode r.tag (C.toText p (C.constVal k))]
+  | .which p alts, _ => match whichOf kids alts with
+    | some k => [textNode r.tag (C.toText p (C.constVal k))]
+    | none => []
   | _, .absent => []
   | .prim p, .prim x => [textNode r.tag (C.toText p x)]
   | .child c, v => [ser c r.tag v]
   | .list c, .node items => items.map (ser c r.tag)
-  | .array c ct _ sz, .node items =>
+  | .array c a, .node items =>
       if items.isEmpty then [] else
-      [.mk r.tag (match sz with | none => [] | some q => [(q, C.sizeText items.length)]) none (items.map (ser c ct))]
+      [.mk r.tag (match a.sizeAttr with | none => [] | some q => [(q, C.sizeText items.length)]) none (items.map (ser c a.childTag))]
   | .primList p, .node items => items.filterMap (primNode? C r.tag p)
+  | .floatArr f, .node items =>
+      if items.isEmpty then [] else
+      [.mk r.tag [(f.sizeAttr, C.sizeText items.length)] none (farrNodes C f 0 items)]
+  | .params c none, .node items => items.map (ser c r.tag)
+  | .params c (some w), .node items =>
+      if items.isEmpty then [] else [.mk r.tag [] none (items.map (ser c w.1))]
   | _, _ => []
 
 def emitAttr (r : Row) (v : Val P S) : List (QName × S) :=
   match r.kind, v with
+  | .const p k true, _ => [(r.tag, C.toText p (C.constVal k))]
   | .attr p, .prim x => [(r.tag, C.toText p x)]
   | _, _ => []
 
@@ -170,6 +416,43 @@ def emitText (r : Row) (v : Val P S) : List S :=
   match r.kind, v with
   | .text p, .prim x => [C.toText p x]
   | _, _ => []
+
+/-- `<Coef exponent1="i">text</Coef>` for every coefficient, in order -/
+def coefNodes1 (s : PolySpec) : Nat → List P → List (XmlNode S)
+  | _, [] => []
+  | i, x :: xs => .mk s.coefTag [(s.exp1, C.sizeText i)] (some (C.toText s.prim x)) [] :: coefNodes1 s (i + 1) xs
+
+def coefRow2 (s : PolySpec) (i : Nat) : Nat → List P → List (XmlNode S)
+  | _, [] => []
+  | j, x :: xs => .mk s.coefTag [(s.exp1, C.sizeText i), (s.exp2, C.sizeText j)] (some (C.toText s.prim x)) [] :: coefRow2 s i (j + 1) xs
+
+/-- `<Coef exponent1="i" exponent2="j">text</Coef>` row by row -/
+def coefNodes2 (s : PolySpec) : Nat → List (List P) → List (XmlNode S)
+  | _, [] => []
+  | i, r :: rs => coefRow2 C s i 0 r ++ coefNodes2 s (i + 1) rs
+
+def widthOf {α : Type} (rows : List (List α)) : Nat := (rows.head?.map List.length).getD 0
+
+/-- attributes and children of the node that carries a coefficient array -/
+def polyBody (s : PolySpec) (v : Val P S) : List (QName × S) × List (XmlNode S) :=
+  match v with
+  | .node items =>
+    if s.two then
+      match rowsOf items with
+      | some rows => ([(s.dim1, C.sizeText (rows.length - s.dimOff)), (s.dim2, C.sizeText (widthOf rows - s.dimOff))],
+                      coefNodes2 C s 0 rows)
+      | none => ([], [])
+    else
+      match primsOf items with
+      | some cs => ([(s.dim1, C.sizeText (cs.length - s.dimOff))], coefNodes1 C s 0 cs)
+      | none => ([], [])
+  | _ => ([], [])
+
+def serializePoly (s : PolySpec) (t : QName) (v : Val P S) : XmlNode S :=
+  let b := polyBody C s v
+  match s.wrapper with
+  | none => .mk t b.1 none b.2
+  | some w => .mk t [] none [.mk w.1 b.1 none b.2]
 
 /-- `to_node` with recursion depth `n` -/
 def serializeN : Nat → ClassId → QName → Val P S → XmlNode S
@@ -179,8 +462,9 @@ def serializeN : Nat → ClassId → QName → Val P S → XmlNode S
     | some (.rows rs), .node kids =>
         .mk t ((rs.zip kids).flatMap (fun p => emitAttr C p.1 p.2))
               ((rs.zip kids).flatMap (fun p => emitText C p.1 p.2)).head?
-              ((rs.zip kids).flatMap (fun p => emitRow C (serializeN n) p.1 p.2))
+              ((rs.zip kids).flatMap (fun p => emitRow C (serializeN n) kids p.1 p.2))
     | some .custom, .blob a x ch => .mk t a x ch
+    | some (.poly s), v => serializePoly C s t v
     | _, _ => .mk t [] none []
 
 def hasTag (q : QName) (x : XmlNode S) : Bool := x.tag == q
@@ -189,6 +473,14 @@ def parsePrim (p : PrimId) (x : XmlNode S) : Option (Val P S) :=
   match x.text with
   | none => none
   | some s => (C.ofText p s).map .prim
+
+/-- the `size` attribute, when present, equals the number of children found -/
+def sizeOk (w : XmlNode S) (q : QName) (n : Nat) : Bool :=
+  match w.attrs.find? (fun a => a.1 == q) with
+  | none => true
+  | some a => match C.ofSize a.2 with
+    | some m => m == n
+    | none => false
 
 /-- what `from_node` hands to the descriptor of one field, already converted -/
 def parseRow (par : ClassId → XmlNode S → Option (Val P S)) (x : XmlNode S) (r : Row) : Option (Val P S) :=
@@ -208,12 +500,67 @@ def parseRow (par : ClassId → XmlNode S → Option (Val P S)) (x : XmlNode S) 
   | .list c =>
     let chs := x.children.filter (hasTag r.ptag)
     if chs.isEmpty then some .absent else (mapOpt (par c) chs).map .node
-  | .array c _ pct _ => match x.children.find? (hasTag r.ptag) with
+  | .array c a => match x.children.find? (hasTag r.ptag) with
     | none => some .absent
-    | some w => (mapOpt (par c) (w.children.filter (hasTag pct))).map .node
+    | some w =>
+      let chs := w.children.filter (hasTag a.pChildTag)
+      if sizeOk C w a.pSizeAttr chs.length then (mapOpt (par c) chs).bind (finishArr C a) else none
   | .primList p =>
     let chs := x.children.filter (hasTag r.ptag)
     if chs.isEmpty then some .absent else (mapOpt (parsePrim C p) chs).map .node
+  | .floatArr f => match x.children.find? (hasTag r.ptag) with
+    | none => some .absent
+    | some w => match attrNat C w f.pSizeAttr with
+      | none => none
+      | some n =>
+        let chs := w.children.filter (hasTag f.pChildTag)
+        if chs.length == n then (mapOpt (parsePrim C f.prim) chs).map .node else none
+  | .params c none =>
+    let chs := x.children.filter (hasTag r.ptag)
+    if chs.isEmpty then some .absent else (mapOpt (par c) chs).map (fun items => .node (dedupe C items))
+  | .params c (some w) => match x.children.find? (hasTag r.ptag) with
+    | none => some .absent
+    | some wn => (mapOpt (par c) (wn.children.filter (hasTag w.2))).map (fun items => .node (dedupe C items))
+  | .count .. | .const .. | .which .. => some .absent
+
+def parseCoef1 (s : PolySpec) (x : XmlNode S) : Option (Nat × P) :=
+  match attrNat C x s.pExp1, x.text with
+  | some i, some t => (C.ofText s.prim t).map (fun v => (i, v))
+  | _, _ => none
+
+/-- one coefficient of a 2-D array of width `w`: flat position `i * w + j` (`j < w` checked here, `i` by `place`) -/
+def parseCoef2 (s : PolySpec) (w : Nat) (x : XmlNode S) : Option (Nat × P) :=
+  match attrNat C x s.pExp1, attrNat C x s.pExp2, x.text with
+  | some i, some j, some t => if j < w then (C.ofText s.prim t).map (fun v => (i * w + j, v)) else none
+  | _, _, _ => none
+
+/-- `from_node` of a coefficient array: zeros of the declared dimensions, every child placed at its exponents -/
+def parsePolyBody (s : PolySpec) (x : XmlNode S) : Option (Val P S) :=
+  let chs := x.children.filter (hasTag s.pCoefTag)
+  if s.two then
+    match attrNat C x s.pDim1, attrNat C x s.pDim2 with
+    | some d1, some d2 =>
+      let n1 := d1 + s.dimOff
+      let n2 := d2 + s.dimOff
+      match mapOpt (parseCoef2 C s n2) chs with
+      | none => none
+      | some es => (place (List.replicate (n1 * n2) (C.constVal s.fill)) es).map
+          (fun flat => .node ((chunk n1 n2 flat).map (fun r => .node (r.map .prim))))
+    | _, _ => none
+  else
+    match attrNat C x s.pDim1 with
+    | some d1 =>
+      match mapOpt (parseCoef1 C s) chs with
+      | none => none
+      | some es => (place (List.replicate (d1 + s.dimOff) (C.constVal s.fill)) es).map (fun cs => .node (cs.map .prim))
+    | none => none
+
+def parsePoly (s : PolySpec) (x : XmlNode S) : Option (Val P S) :=
+  match s.wrapper with
+  | none => parsePolyBody C s x
+  | some w => match x.children.find? (hasTag w.2) with
+    | none => none
+    | some wn => parsePolyBody C s wn
 
 /-- `from_node` with recursion depth `n` -/
 def parseN : Nat → ClassId → XmlNode S → Option (Val P S)
@@ -222,6 +569,7 @@ def parseN : Nat → ClassId → XmlNode S → Option (Val P S)
     match T[c]? with
     | some (.rows rs) => (mapOpt (parseRow C (parseN n) x) rs).map .node
     | some .custom => some (.blob x.attrs x.text x.children)
+    | some (.poly s) => parsePoly C s x
     | none => none
 
 /-! ### values a class can hold (decidable, by fuel) -/
@@ -237,25 +585,51 @@ def isPrimOk (p : PrimId) : Val P S → Bool
 
 def wfField (ne : Bool) (wf : ClassId → Val P S → Bool) (r : Row) (v : Val P S) : Bool :=
   match r.kind, v with
+  | .count .., .absent => true
+  | .const .., .absent => true
+  | .which .., .absent => true
+  | .count .., _ => false
+  | .const .., _ => false
+  | .which .., _ => false
   | _, .absent => true
   | .prim p, .prim x => C.ok p x
   | .attr p, .prim x => C.ok p x
   | .text p, .prim x => C.ok p x
   | .child c, v => wf c v
   | .list c, .node items => (!ne || !items.isEmpty) && items.all (wf c)
-  | .array c _ _ _, .node items => (!ne || !items.isEmpty) && items.all (wf c)
+  | .array c a, .node items => (!ne || !items.isEmpty) && items.all (wf c) &&
+      (a.minLen ≤ items.length && items.length ≤ a.maxLen) && isCanonArr C a items
   | .primList p, .node items => (!ne || !items.isEmpty) && items.all (isPrimOk C p)
+  | .floatArr f, .node items => (!ne || !items.isEmpty) && items.all (isPrimOk C f.prim)
+  | .params c _, .node items => (!ne || !items.isEmpty) && items.all (wf c) && distinctKeys C items
   | _, _ => false
+
+def isRowOk (p : PrimId) (w : Nat) : Val P S → Bool
+  | .node r => r.all (isPrimOk C p) && r.length == w
+  | _ => false
+
+/-- a coefficient array value: 1-D `node [prim ..]` with at least `dimOff` entries; 2-D `node [node [prim ..] ..]`, rectangular,
+    at least one row, at least `dimOff` rows and columns -/
+def wfPoly (s : PolySpec) : Val P S → Bool
+  | .node items =>
+    if s.two then
+      match items with
+      | [] => false
+      | r :: _ => items.all (isRowOk C s.prim (lenOf r)) && s.dimOff ≤ items.length && s.dimOff ≤ lenOf r
+    else items.all (isPrimOk C s.prim) && s.dimOff ≤ items.length
+  | _ => false
 
 /-- `v` is a value of class `c` of depth at most `n`: one entry per row, primitives accepted by their descriptor, present
     collections non-empty when `ne` (an empty collection and an absent one have the same XML; the dict form keeps them
-    apart, so the dict theorems use `ne = false`), nested values well formed -/
+    apart, so the dict theorems use `ne = false`), arrays within their length bounds and carrying the indices their container
+    assigns, parameter names distinct, derived fields empty, nested values well formed -/
 def wfValN (ne : Bool) : Nat → ClassId → Val P S → Bool
   | 0, _, _ => false
   | n + 1, c, v =>
     match T[c]?, v with
     | some (.rows rs), .node kids => all2 (wfField C ne (wfValN ne n)) rs kids
     | some .custom, .blob _ _ _ => true
+    | some (.poly s), v => wfPoly C s v
     | _, _ => false
 
 /-- well formed for the XML form (present collections non-empty) -/
@@ -279,38 +653,62 @@ inductive DVal (P S : Type) where
   | blob (attrs : List (QName × S)) (text : Option S) (children : List (XmlNode S))
 
 section dict
-variable {P S : Type} (T : Tabs)
+variable {P S : Type} (C : Codec P S) (T : Tabs)
 
 def dPrimOf : Val P S → Option (DVal P S)
   | .prim x => some (.prim x)
   | _ => none
 
-def dEmit (ser : ClassId → Val P S → DVal P S) (r : Row) (v : Val P S) : List (Nat × DVal P S) :=
+def dRowOf : Val P S → Option (DVal P S)
+  | .node r => some (.list (r.filterMap dPrimOf))
+  | _ => none
+
+def dEmit (ser : ClassId → Val P S → DVal P S) (kids : List (Val P S)) (r : Row) (v : Val P S) : List (Nat × DVal P S) :=
   match r.kind, v with
+  | .count _ src, _ => [(r.name, .prim (C.natVal (lenOf (kids.getD src .absent))))]
+  | .const _ k _, _ => [(r.name, .prim (C.constVal k))]
+  | .which _ alts, _ => match whichOf kids alts with
+    | some k => [(r.name, .prim (C.constVal k))]
+    | none => []
   | _, .absent => []
   | .prim _, .prim x => [(r.name, .prim x)]
   | .attr _, .prim x => [(r.name, .prim x)]
   | .text _, .prim x => [(r.name, .prim x)]
   | .child c, v => [(r.name, ser c v)]
   | .list c, .node items => [(r.name, .list (items.map (ser c)))]
-  | .array c _ _ _, .node items => [(r.name, .list (items.map (ser c)))]
+  | .array c _, .node items => [(r.name, .list (items.map (ser c)))]
   | .primList _, .node items => [(r.name, .list (items.filterMap dPrimOf))]
+  | .floatArr _, .node items => [(r.name, .list (items.filterMap dPrimOf))]
+  | .params c _, .node items => [(r.name, .list (items.map (ser c)))]
   | _, _ => []
+
+/-- `{'Coefs': coefs.tolist()}` -/
+def polyToDict (s : PolySpec) : Val P S → DVal P S
+  | .node items =>
+    if s.two then .dict [(s.dname, .list (items.filterMap dRowOf))]
+    else .dict [(s.dname, .list (items.filterMap dPrimOf))]
+  | _ => .dict []
 
 /-- `to_dict`: fields that are None are left out -/
 def toDictN : Nat → ClassId → Val P S → DVal P S
   | 0, _, _ => .dict []
   | n + 1, c, v =>
     match T[c]?, v with
-    | some (.rows rs), .node kids => .dict ((rs.zip kids).flatMap (fun p => dEmit (toDictN n) p.1 p.2))
+    | some (.rows rs), .node kids => .dict ((rs.zip kids).flatMap (fun p => dEmit C (toDictN n) kids p.1 p.2))
     | some .custom, .blob a x ch => .blob a x ch
+    | some (.poly s), v => polyToDict s v
     | _, _ => .dict []
 
 def dPrim : DVal P S → Option (Val P S)
   | .prim x => some (.prim x)
   | _ => none
 
+def dRow : DVal P S → Option (Val P S)
+  | .list ds => (mapOpt dPrim ds).map .node
+  | _ => none
+
 def dParseRow (par : ClassId → DVal P S → Option (Val P S)) (es : List (Nat × DVal P S)) (r : Row) : Option (Val P S) :=
+  if r.kind.isDerived then some .absent else
   match es.find? (fun e => e.1 == r.name) with
   | none => some .absent
   | some e =>
@@ -320,27 +718,38 @@ def dParseRow (par : ClassId → DVal P S → Option (Val P S)) (es : List (Nat 
     | .text _, .prim x => some (.prim x)
     | .child c, d => par c d
     | .list c, .list ds => (mapOpt (par c) ds).map .node
-    | .array c _ _ _, .list ds => (mapOpt (par c) ds).map .node
+    | .array c a, .list ds => (mapOpt (par c) ds).bind (finishArr C a)
     | .primList _, .list ds => (mapOpt dPrim ds).map .node
+    | .floatArr _, .list ds => (mapOpt dPrim ds).map .node
+    | .params c _, .list ds => (mapOpt (par c) ds).map .node
     | _, _ => none
+
+/-- `cls(Coefs=list)` -/
+def polyOfDict (s : PolySpec) : DVal P S → Option (Val P S)
+  | .dict es => match es.find? (fun e => e.1 == s.dname) with
+    | some (_, .list ds) => if s.two then (mapOpt dRow ds).map .node else (mapOpt dPrim ds).map .node
+    | _ => none
+  | _ => none
 
 /-- `from_dict` = `cls(**d)`: every field looked up by name, missing = None -/
 def ofDictN : Nat → ClassId → DVal P S → Option (Val P S)
   | 0, _, _ => none
   | n + 1, c, d =>
     match T[c]?, d with
-    | some (.rows rs), .dict es => (mapOpt (dParseRow (ofDictN n) es) rs).map .node
+    | some (.rows rs), .dict es => (mapOpt (dParseRow C (ofDictN n) es) rs).map .node
     | some .custom, .blob a x ch => some (.blob a x ch)
+    | some (.poly s), d => polyOfDict s d
     | _, _ => none
 
 /-- `copy` -/
-def copyN (n : Nat) (c : ClassId) (v : Val P S) : Option (Val P S) := ofDictN T n c (toDictN T n c v)
+def copyN (n : Nat) (c : ClassId) (v : Val P S) : Option (Val P S) := ofDictN C T n c (toDictN C T n c v)
 
 /-- field names distinct per class, child classes exist -/
 def ClassTab.dwf (n : Nat) : ClassTab → Bool
   | .custom => true
+  | .poly _ => true
   | .rows rs => pairwiseB (fun a b => a.name != b.name) rs &&
-      rs.all (fun r => match r.kind with | .child c | .list c | .array c _ _ _ => decide (c < n) | _ => true)
+      rs.all (fun r => match r.kind with | .child c | .list c | .array c _ | .params c _ => decide (c < n) | _ => true)
 def dwfTabs (T : Tabs) : Bool := T.all (ClassTab.dwf T.length)
 def DWF (T : Tabs) : Prop := dwfTabs T = true
 instance (T : Tabs) : Decidable (DWF T) := inferInstanceAs (Decidable (dwfTabs T = true))
